@@ -281,10 +281,37 @@ def rule_update_formulas(repo, rep):
     else:
       rep.refuted(R, key, site(f, stm[name.split('^')[0]]),
                   '%s is %r, documented %r' % (name, v, want))
+  # w = scale * min(avg + beta, 0): a product of the scale and a trimming
+  # whose argument is compared as a rational function
+  if 'w' in stm:
+    e = stm['w'].value
+    key = 'scml._BaseSCML._fit:w'
+    verdict, why = None, ''
+    if isinstance(e, ast.BinOp) and isinstance(e.op, ast.Mult):
+      fac = [e.left, e.right]
+      sc = [x for x in fac if ast.unparse(x) == 'scale_f']
+      tr = [x for x in fac if isinstance(x, ast.Call) and
+            canon(repo.dotted(f.module, x.func) or '') in
+            (canon('numpy.minimum'), canon('numpy.fmin'))
+            and len(x.args) == 2 and not x.keywords]
+      if len(sc) == 1 and len(tr) == 1:
+        a0, a1 = tr[0].args
+        zero = [a for a in (a0, a1) if isinstance(a, ast.Constant) and
+                a.value == 0 and not isinstance(a.value, bool)]
+        other = [a for a in (a0, a1) if a not in zero]
+        if len(zero) == 1 and len(other) == 1:
+          v = eval_expr(other[0], scal, {})
+          if isinstance(v, Rat):
+            verdict = v == avg + be
+            why = 'trimmed quantity is %r, documented %r' % (v, avg + be)
+    if verdict is True:
+      rep.derived(R, key, site(f, stm['w']))
+    elif verdict is False:
+      rep.refuted(R, key, site(f, stm['w']), why)
+    else:
+      rep.unknown(R, key, site(f, stm['w']), 'w = %s is not of the form '
+                  'scale_f * minimum(<rational>, 0)' % ast.unparse(e))
   for name, want_txt in (
-          ('w', ('scale_f * np.minimum(avg_grad_w + self.beta, 0)',
-                 'np.minimum(avg_grad_w + self.beta, 0) * scale_f',
-                 'scale_f * np.minimum(self.beta + avg_grad_w, 0)')),
           ('grad_w', ('np.sum(dist_diff[idx[slack_mask], :], axis=0, '
                       'keepdims=True) / self.batch_size',)),
           ('slack_val', ('1 + np.matmul(dist_diff[idx, :], w.T)',
